@@ -78,10 +78,19 @@ func c10Audit(c *core.Case, ms *mesh, injected map[string]c10Inject, unicastOnly
 		if !ok {
 			c.Fatalf("a frame shorter than a header crossed the link %s->%s", cr.From, cr.To)
 		}
+		l := lin[key]
+		if inj, ok := injected[key]; ok && l == nil && ttl == 0 && inj.zeroTTL && cr.From == inj.at {
+			// The harness itself hands a neighbour's frame with TTL 0 to a router
+			// (nobody honest sends one): it must not travel any further.
+			l = &c10Lineage{key: key, first: cr, recvTTL: map[netip.Addr]int{cr.To: 0}, injected: true, initTTL: 0}
+			copy16 := [16]byte(cr.Data[16:32])
+			l.src = netip.AddrFrom16(copy16)
+			lin[key] = l
+			continue
+		}
 		if ttl == 0 {
 			c.Fatalf("a frame with TTL 0 was put on the link n%d->n%d", ms.idx[cr.From], ms.idx[cr.To])
 		}
-		l := lin[key]
 		if l == nil {
 			var s16 [16]byte
 			copy(s16[:], cr.Data[16:32])
@@ -119,7 +128,7 @@ func c10Audit(c *core.Case, ms *mesh, injected map[string]c10Inject, unicastOnly
 			l.recvTTL[cr.To] = ttl
 		}
 		l.count++
-		if unicastOnly && l.count > l.initTTL-1 {
+		if unicastOnly && l.count > max(l.initTTL-1, 0) {
 			c.Fatalf("a frame with initial TTL %d crossed %d links", l.initTTL, l.count)
 		}
 	}
@@ -127,8 +136,9 @@ func c10Audit(c *core.Case, ms *mesh, injected map[string]c10Inject, unicastOnly
 }
 
 type c10Inject struct {
-	ttl int
-	at  netip.Addr
+	ttl     int
+	at      netip.Addr
+	zeroTTL bool // handed to the router by the harness with TTL 0
 }
 
 func c10Drain(c *core.Case, ms *mesh, max int) int {
@@ -154,6 +164,17 @@ func TestC10Converged(t *testing.T) {
 		ms := buildMesh(c, topo, o)
 		c.Note("topology %s", topo)
 		c09Flood(c, ms, 400_000, false)
+		if c.Bool("maintenance") {
+			// The periodic table maintenance ran on some routers (it has nothing to
+			// remove in a mesh of this size and must leave routing as it is).
+			for i, n := range ms.nodes {
+				if c.Bool("maintenance.node") {
+					n.Rtr.Table().Clean()
+					c.Note("table maintenance ran at n%d", i)
+				}
+			}
+			c.Class("after-table-maintenance")
+		}
 		ms.vn.LogCrossings = true
 		pairs := c.Int("pairs", 1, 10)
 		for p := 0; p < pairs; p++ {
@@ -266,9 +287,9 @@ func TestC10Adversarial(t *testing.T) {
 				dst = dsts[len(dsts)-1-c.Pick("frame.foreign.k", 3)]
 			}
 			mt := frame.MessageType(core.OneOf(c, "frame.type", 1, 2, 8, 16, 17, 0, 3, 99))
-			ttl := core.OneOf(c, "frame.ttl", 1, 2, 3, 5, 8, 32, 64, 255)
+			ttl := core.OneOf(c, "frame.ttl", 1, 2, 3, 5, 8, 32, 64, 255, 0, 1)
 			if c.Bool("frame.ttl.rand") {
-				ttl = c.Int("frame.ttl.v", 1, 255)
+				ttl = c.Int("frame.ttl.v", 0, 255)
 			}
 			// Switch block variants.
 			var sw []byte
@@ -327,7 +348,7 @@ func TestC10Adversarial(t *testing.T) {
 				cp := append([]byte(nil), data...)
 				f.ReturnToPool()
 				// The injection itself is the first crossing (from -> X).
-				injected[key] = c10Inject{ttl: ttl + 1, at: from.IP()}
+				injected[key] = c10Inject{ttl: ttl + 1, at: from.IP(), zeroTTL: ttl == 0}
 				ms.vn.Crossings = append(ms.vn.Crossings, &vnet.Crossing{From: from.IP(), To: X.IP(), Data: cp})
 				res := ms.vn.Inject(X, X.Links[from.IP()], cp)
 				if res.Panicked {
@@ -354,7 +375,7 @@ func TestC10Adversarial(t *testing.T) {
 		lin := c10Audit(c, ms, injected, false)
 		longest := 0
 		for _, l := range lin {
-			if l.injected && l.count > l.initTTL-1 {
+			if l.injected && l.count > max(l.initTTL-1, 0) {
 				c.Fatalf("a frame with initial TTL %d crossed %d links", l.initTTL, l.count)
 			}
 			if l.count > longest {
